@@ -279,6 +279,8 @@ META = (META[0] + ' GAPSHIFT (a backward shift that follows an append covers exa
 
 META = (META[0] + ' SELFMOVE (the compaction loops behind erase / erase_if never move-assign an element onto itself: (base, offset) positions per path).', META[1])
 
+META = (META[0] + ' FWDMOVE (a forwarding-reference parameter is forwarded, never moved).', META[1])
+
 
 def run(chk, tier):
     db = D.load("checks")
@@ -298,6 +300,8 @@ def run(chk, tier):
     _X8.gap_shift_area(chk, db, ['_vector/', '_inplace_vector/'])      # GAPSHIFT: append-then-shift inserts shift exactly the old tail
     _X8.swap_symmetry_area(chk, db, ['_vector/', '_inplace_vector/', '_stack/'])      # SWAPSYM: the two arms of a member swap mirror each other
     _X8.positive_controls(chk, D, ('SWAPSYM', 'GAPSHIFT'))
+    if _X8.forward_move_area(chk, db, ['_vector/', '_inplace_vector/', '_stack/']) < 1:      # FWDMOVE
+        chk.analysis_broken('FWDMOVE: no member with a forwarding-reference parameter found (floor 1)')
     if _X8.self_move_area(chk, db, ['_algorithm/remove', '_algorithm/unique', '_vector/', '_inplace_vector/']) < 2:      # SELFMOVE
         chk.analysis_broken('SELFMOVE: fewer than 2 compaction loops found (floor 2)')
     from ..rules import initform as _IF
